@@ -259,7 +259,7 @@ Fixpoint upd_tx (t : nat) (x : txst) (l : list (nat * txst)) : list (nat * txst)
   | (t', x') :: r => if Nat.eqb t t' then (t', x) :: r else (t', x') :: upd_tx t x r
   end.
 
-(* One API call as one atomic step. Begin is enabled only when the lock admits the mode
+(* One API call as one atomic step. Begin is enabled only when the lock allows the mode
    (None = the caller is blocked, or the id is not fresh); every other call runs the data
    semantics of part B on the committed store and the caller's own buffer. Commit/Rollback
    clear the active flag and (Commit, RW) apply the batch; the lock itself is dropped by the
